@@ -99,6 +99,8 @@ type zoo struct {
 	CA, OtherCA *caT
 	// server certificates
 	SrvGood, SrvOtherCA, SrvSelf, SrvExpired, SrvFuture, SrvWrongSAN, SrvNoSAN, SrvNameOnly certPair
+	// for a collector that is reached by host name ("localhost" -> 127.0.0.1)
+	SrvLoopIPOnly, SrvLoopNameOnly, SrvLoopBoth certPair
 	// client certificates
 	CliGood, CliOtherCA, CliExpired certPair
 }
@@ -123,6 +125,10 @@ func getZoo() *zoo {
 		z.SrvExpired = z.CA.leaf(leafOpts{cn: "srv", dns: []string{serverDNSName}, ips: ips, notBefore: long0, notAfter: bubbleEpoch.AddDate(0, 0, 20)})
 		z.SrvFuture = z.CA.leaf(leafOpts{cn: "srv", dns: []string{serverDNSName}, ips: ips, notBefore: bubbleEpoch.AddDate(0, 0, 10), notAfter: long1})
 		z.SrvWrongSAN = z.CA.leaf(leafOpts{cn: "srv", dns: []string{"other.example"}, ips: []net.IP{net.ParseIP("10.9.9.9")}, notBefore: long0, notAfter: long1})
+		loop := []net.IP{net.ParseIP("127.0.0.1")}
+		z.SrvLoopIPOnly = z.CA.leaf(leafOpts{cn: "srv", ips: loop, notBefore: long0, notAfter: long1})
+		z.SrvLoopNameOnly = z.CA.leaf(leafOpts{cn: "srv", dns: []string{"localhost"}, notBefore: long0, notAfter: long1})
+		z.SrvLoopBoth = z.CA.leaf(leafOpts{cn: "srv", dns: []string{"localhost"}, ips: loop, notBefore: long0, notAfter: long1})
 		z.SrvNoSAN = z.CA.leaf(leafOpts{cn: serverDNSName, notBefore: long0, notAfter: long1})
 		z.CliGood = z.CA.leaf(leafOpts{cn: "cli", client: true, notBefore: long0, notAfter: long1})
 		z.CliOtherCA = z.OtherCA.leaf(leafOpts{cn: "cli", client: true, notBefore: long0, notAfter: long1})
